@@ -10,7 +10,7 @@ RULE = ('every labelled simple graph on n <= N vertices (all 2^(n(n-1)/2) edge s
         'and edge cover, running intersection) checked by the harness; width vs exact treewidth (subset DP); '
         'min_fill/quickbb orders re-eliminated by the harness; bounds bracket the treewidth. Non-trivial = graph '
         'with >= 1 edge; distinct by (n, edge bits, order). Quick tier additionally replays the 80 pre-computed 7-vertex graphs on '
-        'which min-fill is suboptimal (data/hard7.json) and all their one-vertex extensions. Thorough tier additionally: every one-vertex extension (8 vertices) '
+        'which min-fill is suboptimal (data/hard7.json) and all their one-vertex extensions; hub graphs (3 hubs: every choice of 0-2 parallel 2-paths and an optional direct edge per hub pair, <= 9 vertices; 4 hubs: uniform choices, <= 16 vertices). Thorough tier additionally: every one-vertex extension (8 vertices) '
         'of each 7-vertex graph on which min-fill is suboptimal, i.e. where quickbb actually has to search.')
 ASSUMPTIONS = ['vertices are small ints', 'treewidth oracle: Bodlaender et al. subset DP, plain Python']
 METHODS = ('min_fill', 'quickbb', 'acb')
@@ -38,6 +38,10 @@ def gen_cases(tier, seed):
             for bits in json.load(open(path)):
                 yield (7, bits, bits + 1)
                 yield ('ext8', bits)
+    # hub graphs: h hubs, every pair of hubs joined by p parallel paths of length 2 and optionally a direct edge
+    # (partial k-trees in which the vertex extending a separator need not be adjacent to it)
+    for spec in hub_specs(tier):
+        yield ('hub', spec)
     if tier == 'thorough':
         n = 7
         total = 1 << 21
@@ -47,6 +51,8 @@ def gen_cases(tier, seed):
 
 
 def describe(case):
+    if case[0] == 'hub':
+        return {'hubs': case[1][0], 'per_pair_(parallel_2-paths, direct_edge)': list(case[1][1])}
     if case[0] == 'ext8':
         return {'one_vertex_extensions_of_7_vertex_graph_with_edge_bits': case[1]}
     return {'n': case[0], 'edge_bits_from': case[1], 'to': case[2]}
@@ -133,8 +139,44 @@ def width_of_order(g, order):
     return w
 
 
+def hub_specs(tier):
+    import itertools
+    out = []
+    opts = [(p, d) for p in (0, 1, 2) for d in (0, 1)]
+    for combo in itertools.product(opts, repeat=3):          # 3 hubs: every choice per pair, <= 9 vertices
+        out.append((3, combo))
+    for p in (1, 2):                                         # 4 hubs, uniform choices, <= 16 vertices
+        for d in (0, 1):
+            out.append((4, ((p, d),) * 6))
+    if tier == 'thorough':
+        for combo in itertools.product([(0, 1), (1, 0), (2, 0)], repeat=6):
+            out.append((4, combo))
+    return out
+
+
+def hub_graph(spec, order):
+    import itertools
+    h, combo = spec
+    g = {v: set() for v in range(h)}
+    nxt = h
+    for (a, b), (p, d) in zip(itertools.combinations(range(h), 2), combo):
+        if d:
+            g[a].add(b); g[b].add(a)
+        for _ in range(p):
+            g[nxt] = {a, b}
+            g[a].add(nxt); g[b].add(nxt)
+            nxt += 1
+    vs = sorted(g, reverse=bool(order))
+    return {v: set(g[v]) for v in vs}
+
+
 def run_case(case):
     r = Res()
+    if case[0] == 'hub':
+        for order in (0, 1):
+            g = hub_graph(case[1], order)
+            judge_graph(g, ('hub', case[1], order), case, True, r)
+        return r
     if case[0] == 'ext8':
         # every one-vertex extension of a 7-vertex graph on which min-fill is not optimal (quickbb has to search there)
         _, bits = case
